@@ -208,30 +208,38 @@ class Observer:
         self.by_coro[id(coro)] = inst
         return coro
 
+    def log_exit(self, inst: Inst, exc: BaseException | None) -> None:
+        """The worker's `finally:` has just run `del streams[key]` (hook: entry of `async with signaller`,
+        which follows it in the same segment; fallback: the end of the coroutine)."""
+        if inst.exit is not None:
+            return
+        if isinstance(exc, asyncio.CancelledError):
+            inst.exit = "kill"
+        elif exc is not None:
+            inst.exit = "fail" if inst.proc_raised else "weird"
+        else:
+            inst.exit = "retire" if inst.timed_out else "eos" if inst.got_eos else "weird"
+        inst.waiting = False
+        inst.t_exit = self.ticks()
+        if inst.exit == "fail" and self.fail_t is None:
+            self.fail_t = self.now()
+        for f in inst.waiters:
+            if not f.done():
+                f.set_result(None)
+        inst.waiters.clear()
+        self.label([inst.exit, inst.k, inst.g])
+
     async def _run_worker(self, inst: Inst, kw: dict) -> None:
         inst.started = True
         inst.task = asyncio.current_task()
         self.by_task[inst.task] = inst
         try:
             await self.real_worker(**kw)
-        except asyncio.CancelledError:
-            inst.exit = "kill"
-            raise
-        except BaseException:
-            inst.exit = "fail" if inst.proc_raised else "weird"
+        except BaseException as e:
+            self.log_exit(inst, e)
             raise
         else:
-            inst.exit = "retire" if inst.timed_out else "eos" if inst.got_eos else "weird"
-        finally:
-            inst.waiting = False
-            inst.t_exit = self.ticks()
-            if inst.exit == "fail" and self.fail_t is None:
-                self.fail_t = self.now()
-            for f in inst.waiters:
-                if not f.done():
-                    f.set_result(None)
-            inst.waiters.clear()
-            self.label([inst.exit or "weird", inst.k, inst.g])
+            self.log_exit(inst, None)
 
     def on_pending_put(self, job: Any) -> None:
         inst = self.by_coro.get(id(job.coro))
@@ -461,6 +469,15 @@ def simulate(scn: dict, policy: str = "fifo", max_steps: int = 5000) -> dict:
             super().put_nowait(item)
             obs.on_put(self, item)
 
+    class ObservedCondition(asyncio.Condition):
+        """the watcher's `signaller`: a worker enters it right after `del streams[key]`"""
+
+        async def __aenter__(self) -> None:
+            inst = obs.by_task.get(asyncio.current_task())
+            if inst is not None:
+                obs.log_exit(inst, sys.exc_info()[1])
+            return await super().__aenter__()
+
     class PendingQueue(asyncio.Queue):
         def put_nowait(self, item: Any) -> None:
             super().put_nowait(item)
@@ -522,7 +539,7 @@ def simulate(scn: dict, policy: str = "fifo", max_steps: int = 5000) -> dict:
     saved = {n: getattr(queueing, n) for n in ("watching", "asyncio", "aiotasks", "worker", "_wait_for_depletion")}
     log_levels = [(lg, lg.level) for lg in (logging.getLogger("kopf"), logging.getLogger("asyncio"))]
     queueing.watching = _Proxy(saved["watching"], infinite_watch=obs.stream)
-    queueing.asyncio = _Proxy(asyncio, wait_for=obs.wait_for, Queue=ObservedQueue)
+    queueing.asyncio = _Proxy(asyncio, wait_for=obs.wait_for, Queue=ObservedQueue, Condition=ObservedCondition)
     queueing.aiotasks = _Proxy(aiotasks, Scheduler=ObservedScheduler)
     queueing.worker = obs.on_worker_call
     queueing._wait_for_depletion = depletion
